@@ -13,6 +13,7 @@ mod genr;
 mod oracles;
 mod prog;
 mod props;
+mod refcyc;
 mod refi;
 mod reuse;
 mod rng;
@@ -113,6 +114,10 @@ fn cmd_run(args: &[String]) {
         // attributable aborts: note the seed before running it
         let _ = std::fs::write(&cur_path, format!("{prop} {seed}\n"));
         let c = props::make_case(prop, seed, tier);
+        if !c.prog.valid() {
+            harness_errors.push(format!("seed {seed}: generator produced an invalid program"));
+            continue;
+        }
         let Some(o) = run_any(&c) else {
             harness_errors.push(format!("seed {seed}: harness panic"));
             continue;
